@@ -4,6 +4,7 @@ import hashlib
 import json
 import os
 import shutil
+import signal
 import subprocess
 import sys
 import time
@@ -1042,6 +1043,8 @@ def check_C18(ctx):
     ctx.rules += ["vtool perm: base definitions decorated with as many named arguments as possible (priority, callback, ignore(case), allow_greedy; positional or named callback) and a combined #[logos(...)] attribute "
                   "(utf8, error / error(...), extras, crate, subpatterns, skips with arguments); all permutations of each pattern's named arguments (<= 24) and up to 24 dependency-respecting orders of the #[logos] items "
                   "(skips keep their relative order, subpatterns stay before use) go through generate(); acceptance must agree and the generated code (or the sorted diagnostics) must be identical to the canonical order's. "
+                  "Orders that move skips relative to each other renumber the leaves: there acceptance (and the number of diagnostics) must agree, and the definition written with its skips in the new order must pass the "
+                  "product check against its own reference whenever the canonical order does (includes skips that repeat a literal with other arguments). "
                   "Non-trivial: accepted base definitions for which at least one alternative order was compared."]
     n = 600 if ctx.tier == "quick" else 12000
     r = json.loads(vtool(["perm", "--seed", str(ctx.seed), "--count", str(n), "--threads", str(NCPU)]))
@@ -1050,7 +1053,7 @@ def check_C18(ctx):
     ctx.coverage["evaluations"] += r["evaluations"]
     ctx.coverage["distinct_nontrivial"] += r["nontrivial"]
     ctx.coverage["samples"] += r["samples"][:4]
-    ctx.add_stage("perm", {k: r[k] for k in ("definitions", "evaluations", "orders_compared", "nontrivial")})
+    ctx.add_stage("perm", {k: r[k] for k in ("definitions", "evaluations", "orders_compared", "skip_orders_checked_against_reference", "nontrivial")})
 
 
 def check_C19(ctx):
@@ -1058,6 +1061,8 @@ def check_C19(ctx):
                   "non-UTF-8 in str mode, named/empty/multi-field variants), malformed and duplicated attribute arguments, and token-level mutations (delete/duplicate/swap/re-nest/insert/duplicate-argument/truncate) of valid attributes; "
                   "a panic or an accepted must-reject specimen is a violation. (R) a sample of the same inputs, one enum per module, compiled by the STABLE toolchain with --message-format=json: no 'proc-macro derive panicked' / ICE; "
                   "library-rejected clean inputs must surface their compile_error texts; library-accepted clean inputs must compile. Every accepted corpus definition must compile in all 4 configurations. "
+                  "Resource specimens in subprocesses: nested counted repetitions (3 GiB address space) and patterns nested 32..100000 deep in four shapes on a 2 MiB stack (std's default thread stack): "
+                  "a panic or a stack overflow is a violation, an allocation failure or watchdog is inconclusive/limit. "
                   "Non-trivial: inputs that were rejected with diagnostics."]
     n = 8000 if ctx.tier == "quick" else 200000
     r = json.loads(vtool(["fuzz", "--seed", str(ctx.seed), "--count", str(n), "--threads", str(NCPU)]))
@@ -1075,8 +1080,43 @@ def check_C19(ctx):
     os.makedirs(sdir, exist_ok=True)
     specimens = ['#[regex("((a{4294967295}){4294967295}){4294967295}")]', '#[regex("(((b{65536}){65536}){65536}){65536}x")]',
                  '#[regex("c((d{4000000000}|e){4000000000}){4000000000}")]', '#[logos(skip("((f{4294967295}){4294967295}){4294967295}"))]']
+    # nesting depth: groups, non-capturing groups, repeated groups and alternation chains nested d deep; the derive runs
+    # on a thread with std's default stack of 2 MiB and must finish (implemented or cleanly rejected) at every depth
+    depths = [64, 200, 250, 251, 400, 700, 1000, 1500, 2000, 3000, 4000, 4096, 4097, 6000, 20000] if ctx.tier == "quick" else \
+             [32, 64, 128, 200, 249, 250, 251, 252, 300, 400, 500, 700, 1000, 1300, 1500, 2000, 2500, 3000, 3500, 4000, 4095, 4096, 4097, 5000, 6000, 8192, 10000, 20000, 65536, 100000]
+    deep = []
+    for d in depths:
+        for (o, c) in (("(", ")"), ("(?:", ")"), ("(", ")+"), ("(?:x|", ")")):
+            deep.append((d, '#[regex("' + o * d + "a" + c * d + '")]'))
     exe = build_harness()
-    res_stats = {"panicked": 0, "resource_limit": 0, "finished": 0}
+    res_stats = {"panicked": 0, "resource_limit": 0, "finished": 0, "depth_specimens": len(deep), "depth_accepted": 0, "depth_rejected": 0, "max_depth_accepted": 0}
+    def run_depth(item):
+        k, (d, attr) = item
+        src = f"#[derive(Logos)]\nenum T {{\n    {attr}\n    A,\n    #[token(\"q\")]\n    B,\n}}\n"
+        fp = os.path.join(sdir, f"d{k}.rs")
+        open(fp, "w").write(src)
+        try:
+            p = subprocess.run([exe, "show", "--file", fp, "--stack-kib", "2048", "--brief"], env=env_base(), timeout=600, stdout=subprocess.PIPE, stderr=subprocess.STDOUT, text=True, errors="replace")
+            return d, attr, p.returncode, p.stdout
+        except subprocess.TimeoutExpired:
+            return d, attr, None, "TIMEOUT"
+    with ThreadPoolExecutor(max_workers=NCPU) as ex:
+        for d, attr, rc, out in ex.map(run_depth, enumerate(deep)):
+            ctx.coverage["evaluations"] += 1
+            brief = attr[:40] + f"...(nesting depth {d})"
+            if "overflowed its stack" in out or (rc is not None and rc < 0 and -rc in (signal.SIGSEGV, signal.SIGBUS)):
+                ctx.add_violation({"property": "C19", "level": "L", "rule": "derive-overflowed-stack", "detail": f"pattern nested {d} deep: the derive overflowed a 2 MiB stack instead of finishing or rejecting: {out.strip()[-160:]}", "definition": {"source": brief}})
+            elif "Panicked(" in out:
+                ctx.add_violation({"property": "C19", "level": "L", "rule": "derive-panicked", "detail": out[out.index("Panicked("):][:300], "definition": {"source": brief}})
+            elif rc is None:
+                ctx.inconclusive.append(f"depth specimen {brief}: watchdog fired")
+            elif '"outcome":"Accepted"' in out:
+                res_stats["depth_accepted"] += 1
+                res_stats["max_depth_accepted"] = max(res_stats["max_depth_accepted"], d)
+            elif '"outcome":"Rejected' in out:
+                res_stats["depth_rejected"] += 1
+            else:
+                ctx.inconclusive.append(f"depth specimen {brief}: unexpected output rc={rc}: {out[-200:]}")
     for k, attr in enumerate(specimens):
         src = f"#[derive(Logos)]\n{attr if attr.startswith('#[logos') else ''}\nenum T {{\n    {attr if not attr.startswith('#[logos') else ''}\n    #[token(\"q\")]\n    A,\n}}\n" if attr.startswith('#[logos') else f"#[derive(Logos)]\nenum T {{\n    {attr}\n    A,\n    #[token(\"q\")]\n    B,\n}}\n"
         fp = os.path.join(sdir, f"r{k}.rs")
